@@ -155,10 +155,10 @@ def tlc(module, cfg, env=None, workers=8, timeout=900, simulate=None, deque=Fals
     return {"out": out, "generated": gen, "distinct": dist, "rc": rc, "wall": wall}
 
 
-def tlc_model(module, cfg, env=None, workers=8, timeout=900, min_states=2, expect=None):
+def tlc_model(module, cfg, env=None, workers=8, timeout=900, min_states=2, expect=None, coverage=False):
     """Model-check a bounded instance. Any invariant violation / error here is a *tool* failure:
     the design model does not depend on /repo."""
-    r = tlc(module, cfg, env=env, workers=workers, timeout=timeout)
+    r = tlc(module, cfg, env=env, workers=workers, timeout=timeout, coverage=coverage)
     ok = "Model checking completed. No error has been found." in r["out"]
     if not ok or r["distinct"] < min_states:
         raise ToolError("TLC model run %s/%s failed or was vacuous:\n%s" % (module, cfg, tail(r["out"], 60)))
@@ -187,56 +187,86 @@ _UNMATCHED = re.compile(r'<<\s*"UNMATCHED",\s*(\d+)', re.S)
 _CHECKFAIL = re.compile(r'<<\s*"CHECK-FAILED",\s*"([^"]+)",\s*"([^"]+)",\s*(\d+)', re.S)
 
 
-def tlc_trace(module, cfg, trace_path, env=None, timeout=1800, max_rejections=8, heap="6g", resync="reset"):
-    """Validate an ndjson trace against a trace spec. After a rejection the remainder of the
-    trace (from the next `Reset`-delimited run, or the next event) is still validated.
+def tlc_trace(module, cfg, trace_path, env=None, timeout=1800, max_rejections=8, heap="6g", resync="flight"):
+    """Validate an ndjson trace against a trace spec.  After a rejection the rest of the trace is
+    still validated: validation restarts at the next flight (`Deliver` via the entry point) of the
+    same run -- re-entering the run with a copy of its `Reset` event -- or at the next run
+    (resync="reset"), or at the next event (resync="next").
 
-    Returns dict(events, accepted_events, rejections=[{index, event, failed:[(prop,name)], out}], states, wall).
+    Returns dict(events, rejections=[{index, event, failed:[(prop,name)], out}], states, wall).
     """
     events = [l for l in open(trace_path) if l.strip()]
     n = len(events)
     rejections = []
-    offset = 0
+    offset = 0          # 0-based index of the first real event of the current part
+    prefix = []         # synthetic lines put in front of the current part
     states = 0
     wall = 0.0
-    part = trace_path
-    tmp_files = []
-    while offset < n:
-        if offset:
-            part = "%s.part%d" % (trace_path, len(tmp_files))
-            with open(part, "w") as f:
-                f.writelines(events[offset:])
-            tmp_files.append(part)
-        e = dict(env or {})
-        e["VERIF_TRACE"] = part
-        r = tlc(module, cfg, env=e, workers=1, timeout=timeout, deque=True, heap=heap, coverage=False)
-        states += r["distinct"]
-        wall += r["wall"]
-        out = r["out"]
-        if "Model checking completed. No error has been found." in out:
-            break
-        m = _UNMATCHED.search(out)
-        if not m:
-            for f in tmp_files:
-                os.unlink(f)
-            raise ToolError("trace validation %s failed without an UNMATCHED report:\n%s" % (module, tail(out, 60)))
-        k = int(m.group(1))            # 1-based index within this part
-        abs_ix = offset + k            # 1-based index in the whole trace
-        failed = [(a, b) for a, b, pos in _CHECKFAIL.findall(out) if int(pos) == k]
-        rejections.append({"index": abs_ix, "event": json.loads(events[abs_ix - 1]), "failed": failed,
-                           "out": tail(out, 40)})
-        if len(rejections) >= max_rejections:
-            break
-        # resynchronise: continue after the run that contains the rejected event
-        nxt = abs_ix
-        while resync == "reset" and nxt < n and '"ev":"Reset"' not in events[nxt]:
-            nxt += 1
-        # events[nxt] (0-based) is a Reset, or nxt == n
-        if nxt >= n:
-            break
-        offset = nxt
-    for f in tmp_files:
-        os.unlink(f)
+    tmp = trace_path + ".part"
+    try:
+        while offset < n:
+            part = trace_path
+            if offset or prefix:
+                with open(tmp, "w") as f:
+                    f.writelines(prefix)
+                    f.writelines(events[offset:])
+                part = tmp
+            e = dict(env or {})
+            e["VERIF_TRACE"] = part
+            r = tlc(module, cfg, env=e, workers=1, timeout=timeout, deque=True, heap=heap, coverage=False)
+            states += r["distinct"]
+            wall += r["wall"]
+            out = r["out"]
+            # clauses that failed on steps the trace nevertheless took (reported, not blocking)
+            m0 = _UNMATCHED.search(out)
+            k0 = int(m0.group(1)) if m0 else -1
+            soft = {}
+            for a, b, pos in _CHECKFAIL.findall(out):
+                pos = int(pos)
+                if pos != k0:
+                    soft.setdefault(pos, [])
+                    if (a, b) not in soft[pos]:
+                        soft[pos].append((a, b))
+            for pos in sorted(soft):
+                ax = offset + pos - len(prefix)
+                if 1 <= ax <= n:
+                    rejections.append({"index": ax, "event": json.loads(events[ax - 1]), "failed": soft[pos],
+                                       "out": "", "blocking": False})
+            if "Model checking completed. No error has been found." in out:
+                break
+            m = _UNMATCHED.search(out)
+            if not m:
+                raise ToolError("trace validation %s failed without an UNMATCHED report:\n%s" % (module, tail(out, 60)))
+            k = int(m.group(1))                         # 1-based index within this part
+            abs_ix = offset + k - len(prefix)           # 1-based index in the whole trace
+            if abs_ix < 1 or abs_ix > n:
+                raise ToolError("trace validation %s rejected a synthetic event:\n%s" % (module, tail(out, 40)))
+            failed = [(a, b) for a, b, pos in _CHECKFAIL.findall(out) if int(pos) == k]
+            rejections.append({"index": abs_ix, "event": json.loads(events[abs_ix - 1]), "failed": failed,
+                               "out": tail(out, 40), "blocking": True})
+            if len([x for x in rejections if x["blocking"]]) >= max_rejections:
+                break
+            nxt = abs_ix                                # 0-based index of the event after the rejected one
+            prefix = []
+            if resync == "reset":
+                while nxt < n and '"ev":"Reset"' not in events[nxt]:
+                    nxt += 1
+            elif resync == "flight":
+                while nxt < n and '"ev":"Reset"' not in events[nxt] and not (
+                        '"ev":"Deliver"' in events[nxt] and '"via":"ep"' in events[nxt]):
+                    nxt += 1
+                if nxt < n and '"ev":"Reset"' not in events[nxt]:
+                    back = nxt
+                    while back >= 0 and '"ev":"Reset"' not in events[back]:
+                        back -= 1
+                    if back >= 0:
+                        prefix = [events[back]]
+            if nxt >= n:
+                break
+            offset = nxt
+    finally:
+        if os.path.exists(tmp):
+            os.unlink(tmp)
     return {"events": n, "rejections": rejections, "states": states, "wall": wall}
 
 
